@@ -106,6 +106,14 @@ class Gen(object):
     def fresh(self, ty, prefix='v'):
         self.n += 1
         name = '%s%d' % (prefix, self.n)
+        if getattr(self, 'casevars', False) and self.rnd.random() < 0.3:
+            # variable names are compared exactly: a new variable may differ from a visible one in letter case only
+            seen = getattr(self, 'used', set())
+            cands = sorted(n for sc in self.scopes for n in sc if n[:1].islower() and n[:1].upper() + n[1:] not in seen)
+            if cands:
+                other = self.rnd.choice(cands)
+                name = other[:1].upper() + other[1:]
+        self.used = getattr(self, 'used', set()) | {name}
         self.scopes[-1][name] = ty
         return name
 
@@ -445,6 +453,12 @@ class Gen(object):
             kinds += ['self_attr', 'self_read', 'self_op', 'self_relate', 'self_relate', 'self_relate', 'self_select']
         if getattr(self, 'events', False):
             kinds += ['event'] * 5
+        if getattr(self, 'arrays', False):
+            # elements of an array-valued attribute (Items of A) and of an array-valued parameter / event data item (vec)
+            if la or self.home in ('op', 'derived', 'state'):
+                kinds += ['attr_array'] * 3
+            if self.home != 'derived':
+                kinds += ['param_array'] * 2
         k = r.choice(kinds)
         if k == 'event':
             return self.event_stmt()
@@ -460,6 +474,22 @@ class Gen(object):
             self.scopes.pop()
             self.ok.pop()
             return body
+        if k in ('attr_array', 'param_array'):
+            idx = lambda h, e: {'t': 'index', 'h': h, 'e': e}
+            anyidx = lambda: I(r.randint(0, 3)) if r.random() < 0.6 else intv()
+            if k == 'param_array':
+                e = idx({'t': 'param', 'n': 'vec'}, anyidx())
+                e = e if r.random() < 0.5 else Bin(r.choice(['+', '*']), e, intv())
+                return assign_new('int', 'pv', e)
+            hs = [V(n) for n, _ in la] + ([{'t': 'self'}] if self.home in ('op', 'derived', 'state') else [])
+            h = r.choice(hs)
+            out = [Assign(idx(Field(h, 'Items'), anyidx()), intv())]
+            if r.random() < 0.7:
+                h2 = r.choice(hs)
+                out.append(Assign(idx(Field(h2, 'Items'), anyidx()), Bin('+', idx(Field(h, 'Items'), anyidx()), I(r.randint(1, 3)))))
+            if r.random() < 0.7:
+                out.append(assign_new('int', 'av', idx(Field(r.choice(hs), 'Items'), anyidx())))
+            return out
         if k == 'array':
             # elements of array variables: the first assignment to an element declares the array (constant index) with the
             # type of the value; later elements are written and read under any index expression; two dimensions
